@@ -1137,6 +1137,37 @@ def tcp_pipeline(ctx, owner, n_quick=160, n_thorough=6000, extra_files=()):
                             ctx.add_sample([json.loads(x) for x in run[:14]])
 
 
+def tcp_pairing_patterns(path):
+    """Small-scope exhaustive set for C07: two connectors (one behind a NAT) and one acceptor; every combination of the
+    three accept forms, accept posted before / after the SYN arrives, connect order, a dead second target, and the
+    acceptor closed in between."""
+    import itertools
+    topo = {"tick_ns": 1000, "dmtu": 1475,
+            "addrs": {"A1": {"nat": "", "out_lat": 1000, "in_lat": 500}, "A2": {"nat": "X1", "out_lat": 300, "in_lat": 200},
+                      "B1": {"nat": "", "out_lat": 700, "in_lat": 300}},
+            "mtu": [], "net": {"lat": 10000, "cap": 0, "bw": 0}, "nodes": {"N1": ["A1"], "N3": ["A2"], "N2": ["B1"]}}
+    def conn(i, form, c2a, a2c, accept_at, connect_at, target, caddr):
+        return {"id": i, "client": "c%d" % i, "cnode": "N1" if caddr == "A1" else "N3", "caddr": caddr, "cport": 4000 + i,
+                "acc": "l1", "into": "a%d" % i, "form": form, "accept_at": accept_at, "connect_at": connect_at,
+                "target": ["B1", target], "c2a": {"bytes": c2a, "sizes": [150]}, "a2c": {"bytes": a2c, "sizes": [90]},
+                "cread": {"style": "read", "caps": [500]}, "aread": {"style": "wait", "caps": [400]}, "close": "client"}
+    n = 0
+    with open(path, "w") as f:
+        for f1, f2 in itertools.product((1, 2, 3), repeat=2):
+            for a1, a2, c1, c2 in itertools.product((1, 20000), (2, 30000), (5, 25000), (9, 26000)):
+                for dead in (False, True):
+                    for lclose in (None, 15000):
+                        acc = {"l1": {"node": "N2", "addr": "B1", "port": 8000}}
+                        if lclose:
+                            acc["l1"]["close_at"] = lclose
+                        prog = {"topo": topo, "acceptors": acc, "ctl": [],
+                                "conns": [conn(1, f1, 200, 100, a1, c1, 8000, "A1"),
+                                          conn(2, f2, 150, 0, a2, c2, 8099 if dead else 8000, "A2")]}
+                        f.write(json.dumps(prog) + "\n")
+                        n += 1
+    return n
+
+
 def tcp_drop_patterns(path):
     """Exhaustive drop / delay patterns over the first segments of a single connection
     (every subset of the first 4 data segments dropped once, each optionally twice, or delayed),
@@ -1223,7 +1254,9 @@ def c07(ctx):
     vlib.tlc_mc(ctx, "MCTcp.tla", "MC_Tcp_pair.cfg", timeout=900,
                 ignore_actions=("AConnectOk", "AAborted", "ACancel", "ADrop", "ARead", "AReadData", "AReadEof", "AReady", "AResend",
                                 "ASend", "AWrite", "AWriteDone", "AWriteFailed", "ASupersede", "ALate"))
-    tcp_pipeline(ctx, "C07", n_quick=400)
+    fp = ctx.path("ts_pairing.ndjson")
+    tcp_pairing_patterns(fp)
+    tcp_pipeline(ctx, "C07", n_quick=400, extra_files=[fp])
 
 
 @check("C13", "model_checking")
